@@ -153,7 +153,9 @@ type finishResult struct {
 	known      int
 }
 
-func (c *Ctx) finish() int {
+// classify applies floors, the audit table and the known findings to the
+// collected obligations (no output, no files).
+func (c *Ctx) classify() int {
 	vd := verifDir()
 	var audits []auditEntry
 	var findings []findingEntry
@@ -223,6 +225,15 @@ func (c *Ctx) finish() int {
 			c.Note("known finding no longer detected (repaired or construct changed): %s", k)
 		}
 	}
+
+	return 0
+}
+
+func (c *Ctx) finish() int {
+	if rc := c.classify(); rc != 0 {
+		return rc
+	}
+	vd := verifDir()
 
 	sort.SliceStable(c.obls, func(i, j int) bool {
 		a, b := c.obls[i], c.obls[j]
